@@ -537,7 +537,15 @@ def rule_prev_class(ctx):
     r(ctx)
 
 
+def rule_live_config(ctx):
+    """The score is the scheme of the matcher's CURRENT configuration: no routine may read bonus data that was derived
+    from the configuration at construction time (shared with C10.config-only-state)."""
+    from props.c10 import rule_live_config as r
+    r(ctx)
+
+
 def rules(ctx):
+    ctx.run_rule("C04.live-config", rule_live_config)
     ctx.run_rule("C04.prev-class", rule_prev_class)
     ctx.run_rule("C04.early-exit", rule_early_exit)
     ctx.run_rule("C04.prefix-additive", rule_prefix_additive)
